@@ -137,6 +137,33 @@ func exposerTable(c *core.Ctx, l *lifecycleRoles) (rs rows, runs int, undecided 
 					}
 				}
 			}
+			if _, isIface := typ.Underlying().(*types.Interface); isIface && obj == f {
+				// a policy object behind an internal interface: the factory only ever holds the one it is constructed with
+				if n := core.NamedOf(typ); n != nil && !n.Obj().Exported() && n.Obj().Pkg() != nil && core.InScopePath(n.Obj().Pkg().Path()) {
+					if named := ownerOf(ex); named != nil {
+						if stores, _ := c.FieldAccesses(named, fname); len(stores) > 0 {
+							var only types.Type
+							for _, s2 := range stores {
+								mi, isMI := s2.Store.Val.(*ssa.MakeInterface)
+								if !isMI {
+									return nil
+								}
+								k, isK := mi.X.(*ssa.Const)
+								if _, isStruct := mi.X.Type().Underlying().(*types.Struct); !isK || k.Value != nil || !isStruct || (only != nil && !types.Identical(only, mi.X.Type())) {
+									return nil
+								}
+								only = mi.X.Type()
+							}
+							st.allow = true
+							z := absint.NewTok("zero:"+only.String(), "zero")
+							z.Attr["zeroed"] = absint.Bool(true)
+							z.Attr["gotype"] = types.NewPointer(only)
+							z.Attr["boxed"] = only
+							return z
+						}
+					}
+				}
+			}
 			return nil
 		}
 		depList := func(names []string) *absint.List {
@@ -781,9 +808,16 @@ func earlyFactoryTable(c *core.Ctx, l *lifecycleRoles, maxLen int) (rs rows, run
 					hasIA = true
 				}
 			}
+			var regState *absint.Tok
+			regTried := false
 			t.field = func(ip *absint.Interp, obj *absint.Tok, fname string, typ types.Type) absint.Value {
 				if b, ok := typ.Underlying().(*types.Basic); ok && b.Kind() == types.Bool {
 					return absint.Bool(hasIA) // registration sets the flag when such a processor exists (checked structurally)
+				}
+				if obj != f {
+					if v := policyField(c, t, procs, fname, typ, &regState, &regTried); v != nil {
+						return v
+					}
 				}
 				if sl, ok := typ.Underlying().(*types.Slice); ok && types.IsInterface(sl.Elem()) {
 					return dispatchList(c, t, fname, procs)
